@@ -1,7 +1,7 @@
 (* C10 — property theorems.  Nothing but statements, `exact`, Print Assumptions. *)
 From FwdLib Require Import Bytes.
 From G09 Require Import Tables H2Relay Ledger Check Term Obligations Obligations10 FlowBasics PairBasics Lift PairWin PairMisc
-  FifoProofs PairFifo NoStrand Spec Content Fidelity Misc10 Witness.
+  FifoProofs PairFifo NoStrand Deliver Spec Content Fidelity Misc10 ToyCodec Witness.
 Open Scope N_scope.
 
 (* Per-stream order: for every history in which no frame was refused, every endpoint x and every stream s,
@@ -61,6 +61,40 @@ Theorem T10_drains : forall s fl o, get_buf s (f_bufs fl) = Some o ->
   (qtot (ob_q o) <= f_conn fl)%Z -> (qtot (ob_q o) <= ob_win o)%Z -> queue_of (fst (emit_stream s fl)) s = [].
 Proof. exact (emit_stream_drains ob_emit_gate ob_emit_debits). Qed.
 Print Assumptions T10_drains.
+
+(* "Whenever the receiver's windows permit, every queued frame is delivered", with the RECEIVER's own ledger
+   (its SETTINGS / WINDOW_UPDATEs and the DATA it received, computed from the trace alone): after every
+   history in which no frame was refused, a frame is still held for stream s only if it does not fit the
+   receiver's connection window or its window for s. *)
+Theorem T10_delivered_when_permitted :
+  forall (dstate estate : Type) dec enc dresize eresize (evs : list event) (d1 : dstate) (e1 : estate) d2 e2 x s f rest,
+    hist_wf evs -> all_ok (snd (H2Relay.run dec enc dresize eresize (pair0 dstate estate d1 e1 d2 e2) evs)) -> s <> 0 ->
+    queue_of (r_flow (toward x (fst (H2Relay.run dec enc dresize eresize (pair0 dstate estate d1 e1 d2 e2) evs)))) s = f :: rest ->
+    let l := final_wled x (snd (H2Relay.run dec enc dresize eresize (pair0 dstate estate d1 e1 d2 e2) evs)) in
+    (l_conn l < fsz f)%Z \/ (led_window l s < fsz f)%Z.
+Proof. exact (fun ds es dec enc dr er => held_only_without_credit ds es dec enc dr er ob_emit_gate ob_emit_debits ob_settings_delta_not_on_connection). Qed.
+Print Assumptions T10_delivered_when_permitted.
+
+(* What the RECEIVING endpoint decodes: if its HPACK decoder is correct with respect to the relay's encoder
+   (hypothesis Henc: in step -> the next encoded block decodes to the encoded list and they stay in step;
+   Hres: the encoder's table-size changes travel in-band), then decoding the header blocks of everything one
+   relay writes in a step, in wire order, yields exactly the header lists of the released frames, in order,
+   and the two stay in step for the next step. *)
+Theorem T10_receiver_decodes :
+  forall (estate rstate : Type) enc eresize (rdec : rstate -> list N -> option (list field) * rstate) (Sync : estate -> rstate -> Prop),
+    (forall est rst f bytes est', Sync est rst -> enc est f = (bytes, est') -> exists rst', rdec rst bytes = (Some f, rst') /\ Sync est' rst') ->
+    (forall est rst v, Sync est rst -> Sync (eresize est v) rst) ->
+    forall l est maxp l' est' rst,
+      run_script enc eresize est maxp l = Some (l', est') -> Sync est rst ->
+      fst (rdecode rstate rdec rst (blocks l')) = map Some (hdr_lists l') /\ hdr_lists l' = hdr_lists l /\
+      Sync est' (snd (rdecode rstate rdec rst (blocks l'))).
+Proof. exact receiver_decodes_what_was_queued. Qed.
+Print Assumptions T10_receiver_decodes.
+
+(* the hypotheses of T10_receiver_decodes are satisfiable: a length-prefixed codec *)
+Example T10_receiver_decodes_example :
+  forall est rst f bytes est', True -> toy_enc est f = (bytes, est') -> exists rst', toy_dec rst bytes = (Some f, rst') /\ True.
+Proof. exact toy_correct. Qed.
 
 (* SETTINGS, SETTINGS ACK, PING, GOAWAY: relayed one for one to the other endpoint in the same step. *)
 Theorem T10_conn_frames :
